@@ -7,6 +7,7 @@ From FP Require Import Model.Base Model.Rdh Model.RdhChecks Model.CdpRunning Mod
 From FP Require Import Spec.GrammarItsCdw Spec.GrammarItsCdwCheck Proofs.C01_its_cdw Proofs.C01_cdw_check.
 From FP Require Import Spec.GrammarStaveCdwCheck Proofs.C01_stave_cdw Proofs.C01_cdw_contains.
 From FP Require Import Model.Alpide Spec.GrammarStave Spec.GrammarStaveCheck.
+From FP Require Import Model.Collector Model.System Spec.Framing Spec.GroundTruth Proofs.C03_proofs Proofs.C06_proofs Proofs.C14_proofs Proofs.C01_run.
 From FP Require Gen.Facts.
 Import ListNotations.
 Open Scope N_scope.
@@ -99,6 +100,94 @@ Proof. exact ExampleS.example_stave. Qed.
 Theorem C01_its_nonvacuous : wf_link_its Example.ld [Example.ih 10; Example.ih 11] /\ length (render_link Example.ld) = 8%nat.
 Proof. exact Example.example_wf. Qed.
 
+(* ONE WHOLE RUN (scanner, dispatcher, every validator thread, analysis thread, collector, report, exit status).  A well-framed,
+   recognised input of any number of links / FEE ids interleaved in any way, under any filter; `cdps` are the packets the
+   scanner hands on; a dispatch unit = the packets of one link id (one FEE id under `check all its-stave`).  If every unit's own pass
+   is silent, the run ends with zero errors, nothing displayed and exit status 0 -- whatever any-errors exit code, mute flag, error
+   cap or code filter is configured. *)
+Theorem C01_whole_run : forall c pkts ff,
+  Forall wf_pkt pkts -> N.of_nat (length pkts) < U32_MAX -> pay_all pkts < U32_MAX ->
+  (forall p r, pkts = p :: r -> known_sysid (r_system_id (hdr p)) = true) -> pkts <> [] ->
+  recognised (serialize pkts) = true -> rc_counts c = {| cc_cdps := None; cc_pht := None |} ->
+  let cdps := map (mk_cdp (rc_scan c)) (selected (rc_scan c) 0 pkts) in
+  (forall id, sel (rc_check c) id cdps <> [] -> silent_pass (run_validator (rc_check c) (sel (rc_check c) id cdps))) ->
+  exists s, run_check ff c (serialize pkts) = R_done s [] 0 /\ k_total s = 0 /\ k_errors s = [] /\ k_fatal s = None /\ k_custom s = [].
+Proof. exact (fun c pkts ff H1 H2 H3 H4 H5 H6 H7 H8 => c01_whole_run c pkts (eq_refl : Gen.Facts.cdp_offset_sampled_after = true) H1 H2 H3 H4 H5 H6 H7 H8 ff). Qed.
+
+(* ... and the units are silent when they are links of the grammars: the five check modes *)
+Theorem C01_whole_run_rdh_tier : forall c pkts ff running,
+  Forall wf_pkt pkts -> N.of_nat (length pkts) < U32_MAX -> pay_all pkts < U32_MAX ->
+  (forall p r, pkts = p :: r -> known_sysid (r_system_id (hdr p)) = true) -> pkts <> [] ->
+  recognised (serialize pkts) = true -> rc_counts c = {| cc_cdps := None; cc_pht := None |} ->
+  rc_check c = no_target running ->
+  let cdps := map (mk_cdp (rc_scan c)) (selected (rc_scan c) 0 pkts) in
+  (forall id, sel (rc_check c) id cdps <> [] -> exists ld, wf_link_rdh ld = true /\ map strip (sel (rc_check c) id cdps) = render_link ld) ->
+  exists s, run_check ff c (serialize pkts) = R_done s [] 0 /\ k_total s = 0 /\ k_errors s = [] /\ k_fatal s = None /\ k_custom s = [].
+Proof.
+  intros c pkts ff running H1 H2 H3 H4 H5 H6 H7 Hc cdps Hl. apply C01_whole_run; try assumption.
+  intros id Hs. destruct (Hl id Hs) as (ld & Hw & Hr). exists []. split; [|constructor].
+  fold cdps. rewrite Hc in *. exact (c01_rdh_link ld running _ Hw Hr).
+Qed.
+
+Theorem C01_whole_run_its_tier : forall c pkts ff running,
+  Forall wf_pkt pkts -> N.of_nat (length pkts) < U32_MAX -> pay_all pkts < U32_MAX ->
+  (forall p r, pkts = p :: r -> known_sysid (r_system_id (hdr p)) = true) -> pkts <> [] ->
+  recognised (serialize pkts) = true -> rc_counts c = {| cc_cdps := None; cc_pht := None |} ->
+  rc_check c = its_cfg running ->
+  let cdps := map (mk_cdp (rc_scan c)) (selected (rc_scan c) 0 pkts) in
+  (forall id, sel (rc_check c) id cdps <> [] -> exists ld chs, wf_link_its_cdw ld chs /\ map strip (sel (rc_check c) id cdps) = render_link ld) ->
+  exists s, run_check ff c (serialize pkts) = R_done s [] 0 /\ k_total s = 0 /\ k_errors s = [] /\ k_fatal s = None /\ k_custom s = [].
+Proof.
+  intros c pkts ff running H1 H2 H3 H4 H5 H6 H7 Hc cdps Hl. apply C01_whole_run; try assumption.
+  intros id Hs. destruct (Hl id Hs) as (ld & chs & Hw & Hr). exists []. split; [|constructor].
+  fold cdps. rewrite Hc in *. exact (c01_its_cdw_link ld chs running _ Hw Hr).
+Qed.
+
+Theorem C01_whole_run_stave_tier : forall c pkts ff,
+  Forall wf_pkt pkts -> N.of_nat (length pkts) < U32_MAX -> pay_all pkts < U32_MAX ->
+  (forall p r, pkts = p :: r -> known_sysid (r_system_id (hdr p)) = true) -> pkts <> [] ->
+  recognised (serialize pkts) = true -> rc_counts c = {| cc_cdps := None; cc_pht := None |} ->
+  rc_check c = stave_cfg ->
+  let cdps := map (mk_cdp (rc_scan c)) (selected (rc_scan c) 0 pkts) in
+  (forall id, sel (rc_check c) id cdps <> [] -> exists ld chs ly, wf_link_stave_cdw ld chs ly /\ map strip (sel (rc_check c) id cdps) = render_link ld) ->
+  exists s, run_check ff c (serialize pkts) = R_done s [] 0 /\ k_total s = 0 /\ k_errors s = [] /\ k_fatal s = None /\ k_custom s = [].
+Proof.
+  intros c pkts ff H1 H2 H3 H4 H5 H6 H7 Hc cdps Hl. apply C01_whole_run; try assumption.
+  intros id Hs. destruct (Hl id Hs) as (ld & chs & ly & Hw & Hr).
+  fold cdps. rewrite Hc in *. exact (c01_stave_cdw_link ld chs ly _ Hw Hr).
+Qed.
+
+(* non-vacuity: the two-frame link of C01_nonvacuous, its RDHs encoded to bytes, interleaved with a second link (another link id) --
+   every hypothesis of the whole-run theorem holds and the run is silent with exit status 0 although -E 5 is configured *)
+Definition c01w_pg n := {| pg_counter := n; pg_par := 0; pg_payload := repeat 0 16 |}.
+Definition c01w_h o := {| h_orbit := o; h_bc := 3563; h_trigger := 27139; h_detfield := 15; h_pages := [c01w_pg 1; c01w_pg 2]; h_stop := c01w_pg 3 |}.
+Definition c01w_ld l := {| l_link := l; l_fee := 20522; l_version := 7; l_system := 32; l_format := 2; l_cru := 24; l_dw := 1; l_hbfs := [c01w_h 10; c01w_h 11] |}.
+Definition c01w_pk (x : rdh * list N) : packet := {| p_hdr := encode_rdh (fst x); p_payload := snd x |}.
+Fixpoint c01w_merge (a b : list packet) : list packet :=
+  match a, b with x :: a', y :: b' => x :: y :: c01w_merge a' b' | _, [] => a | [], _ => b end.
+Definition c01w_pkts : list packet := c01w_merge (map c01w_pk (render_link (c01w_ld 5))) (map c01w_pk (render_link (c01w_ld 9))).
+Definition c01w_cfg : run_cfg :=
+  {| rc_scan := {| sc_filter := None; sc_skip := false; sc_src := Src_file |}; rc_check := no_target true;
+     rc_mute := false; rc_cap := 0; rc_filter := None; rc_exit := Some 5; rc_counts := {| cc_cdps := None; cc_pht := None |} |}.
+Example C01_whole_run_nonvacuous :
+  Forall wf_pkt c01w_pkts /\ length c01w_pkts = 12%nat /\ recognised (serialize c01w_pkts) = true /\
+  (let cdps := map (mk_cdp (rc_scan c01w_cfg)) (selected (rc_scan c01w_cfg) 0 c01w_pkts) in
+   forall id, sel (rc_check c01w_cfg) id cdps <> [] ->
+     exists ld, wf_link_rdh ld = true /\ map strip (sel (rc_check c01w_cfg) id cdps) = render_link ld) /\
+  exists s, run_check true c01w_cfg (serialize c01w_pkts) = R_done s [] 0.
+Proof.
+  split; [repeat constructor; apply wf_pktb_sound; vm_compute; reflexivity|].
+  split; [reflexivity|]. split; [vm_compute; reflexivity|]. split.
+  - cbv zeta. intros id Hs.
+    destruct (N.eq_dec id 5) as [->|N5]; [exists (c01w_ld 5); split; vm_compute; reflexivity|].
+    destruct (N.eq_dec id 9) as [->|N9]; [exists (c01w_ld 9); split; vm_compute; reflexivity|].
+    exfalso. apply Hs. unfold sel. apply C06_proofs.filter_none. intros q Hq.
+    assert (Hd : (disp_id (rc_check c01w_cfg) q =? 5) || (disp_id (rc_check c01w_cfg) q =? 9) = true).
+    { revert q Hq. apply forallb_forall. vm_compute. reflexivity. }
+    apply N.eqb_neq. apply orb_true_iff in Hd. destruct Hd as [Hd|Hd]; apply N.eqb_eq in Hd; congruence.
+  - eexists. vm_compute. reflexivity.
+Qed.
+
 Print Assumptions C01_rdh_tier.
 Print Assumptions C01_its_tier.
 Print Assumptions C01_stave_tier.
@@ -119,3 +208,8 @@ Print Assumptions C01_calibration_nonvacuous.
 Print Assumptions C01_rendered_rdh_is_sane.
 Print Assumptions C01_rendered_page_keeps_running_invariant.
 Print Assumptions C01_nonvacuous.
+Print Assumptions C01_whole_run.
+Print Assumptions C01_whole_run_rdh_tier.
+Print Assumptions C01_whole_run_its_tier.
+Print Assumptions C01_whole_run_stave_tier.
+Print Assumptions C01_whole_run_nonvacuous.
